@@ -87,3 +87,42 @@ func H_C03_hardening_deterministic() {
 	symx.Reach("twice")
 	symx.Assert(ev.SameText(out1, out2), "the emitted hardening code depends only on the seeded random source")
 }
+
+// H_C03_hardening_choice: the list of hardenings a directive names is built in
+// the order it names them, whatever order Go iterates maps in.
+func H_C03_hardening_choice() {
+	symx.MapOrder(true)
+	names := [][]string{{"xor", "delegate_table"}, {"delegate_table", "xor"}, {"xor"}}[symx.Choose(3)]
+	kind := func(h dispatcherHardening) string {
+		switch h := h.(type) {
+		case xorHardening:
+			return "xor"
+		case delegateTableHardening:
+			return "delegate_table"
+		case multiHardening:
+			s := "multi:"
+			for _, e := range h {
+				if _, ok := e.(xorHardening); ok {
+					s += "x"
+				} else {
+					s += "d"
+				}
+			}
+			return s
+		}
+		return "?"
+	}
+	k1 := kind(newDispatcherHardening(names))
+	k2 := kind(newDispatcherHardening(names))
+	symx.MapOrder(false)
+	symx.Reach("twice")
+	symx.Assert(k1 == k2, "the hardening list does not depend on map iteration order")
+	want := names[0]
+	if len(names) == 2 {
+		want = "multi:xd"
+		if names[0] == "delegate_table" {
+			want = "multi:dx"
+		}
+	}
+	symx.Assert(k1 == want, "hardenings are listed in directive order")
+}
